@@ -1098,7 +1098,29 @@ class Executor:
             return run
         if name.startswith(('llvm.memcpy', 'llvm.memmove')):
             def run(st, fr, work):
-                s.memcpy(st, args[0](st, fr), args[1](st, fr), args[2](st, fr), name); done(st, fr)
+                d, sr, n = args[0](st, fr), args[1](st, fr), args[2](st, fr)
+                if not isinstance(n, int): n = simp(n)
+                if isinstance(n, int) or s.abstract_memcpy:
+                    s.memcpy(st, d, sr, n, name); return done(st, fr)
+                # symbolic length outside Mode A: the bounds of both ranges are decided symbolically first (a violation ends the
+                # path), then the length is case-split completely (like verif_fork)
+                s.resolve_ptr(st, d, n, name + " dst"); s.resolve_ptr(st, sr, n, name + " src")
+                vals = []; extra = []
+                while True:
+                    ok, m = s.sat(st, extra, True)
+                    if not ok: break
+                    x = m.eval(n, model_completion=True).as_long(); vals.append(x); extra.append(n != x)
+                    if len(vals) > 96: raise Unsupported("symbolic memcpy length with more than 96 feasible values")
+                if not vals: raise PathEnd()
+                vals.sort()
+                for x in vals[1:]:
+                    o = st.clone(); o.pc.append(n == x); s.stats['forks'] += 1
+                    try:
+                        s.memcpy(o, d, sr, x, name); done(o, o.frames[-1]); work.append(o)
+                    except Violation:
+                        s.finish_path(o, False)
+                st.pc.append(n == vals[0])
+                s.memcpy(st, d, sr, vals[0], name); done(st, fr)
             return run
         if name.startswith('llvm.memset'):
             def run(st, fr, work):
